@@ -46,7 +46,8 @@ type jsonRow struct {
 	L []int     `json:"l"`
 }
 
-var strPool = []string{"", "a", "plain text", "with,comma", `with "quotes"`, "multi\nline", " leading", "trailing ", "ünï©ødé ✓", `""`, ",", "\n", `a,"b",c`, "tab\there", "'single'", "#hash", "null", "0", "-1.5e3", "true"}
+var strPool = []string{"", "a", "plain text", "with,comma", `with "quotes"`, "multi\nline", " leading", "trailing ", "ünï©ødé ✓", `""`, ",", "\n", `a,"b",c`, "tab\there", "'single'", "#hash", "null", "0", "-1.5e3", "true",
+	"bell\a", "\v", "del\x7f", "nul\x00mid", "\u2028line", "tag\U000E0001", `back\slash`, "<a href='x'>&amp;</a>", "\u00a0nbsp", "#", "\ufeffbom"}
 var f64Pool = []float64{0, math.Copysign(0, -1), 1, -1, 0.1, 1.0 / 3, math.MaxFloat64, -math.MaxFloat64, math.SmallestNonzeroFloat64, 5e-324, 1e21, 1e-7, 123456789.123456789, math.Inf(1), math.Inf(-1), math.Pi}
 var f32Pool = []float32{0, 1, -1, 0.1, 1.0 / 3, math.MaxFloat32, math.SmallestNonzeroFloat32, 16777217, 1e-10}
 
@@ -215,7 +216,7 @@ func (c11) Gen(rng *rand.Rand, tier string, k int) *Case {
 		c.Ops = append(c.Ops, OpSpec{Op: op, N: n, Seed: rng.Int63n(1 << 30)})
 	}
 	c.Ops = append(c.Ops, OpSpec{Op: "permuted", N: rng.Intn(5), Seed: rng.Int63n(1 << 30), From: rng.Intn(4)})
-	c.Ops = append(c.Ops, OpSpec{Op: "json", N: rng.Intn(6), Seed: rng.Int63n(1 << 30)})
+	c.Ops = append(c.Ops, OpSpec{Op: "json", N: rng.Intn(6), Seed: rng.Int63n(1 << 30), From: rng.Intn(6)}) // From: element type
 	switch rng.Intn(4) {
 	case 0:
 		c.Frag = nil
@@ -423,6 +424,53 @@ func (c11) Run(c *Case, st *Stats) []Violation {
 						}
 					}
 				case "json":
+					if op.From > 0 {
+						// scalar element types: string, float64, int64, bool, []string
+						ok, why := true, ""
+						switch op.From {
+						case 1:
+							v := make([]string, op.N)
+							for k := range v {
+								v[k] = strPool[rng.Intn(len(strPool))]
+							}
+							ok, why = jsonRoundTrip(c, st, v, func(a, b string) bool { return a == b })
+						case 2:
+							v := make([]float64, op.N)
+							for k := range v {
+								v[k] = f64Pool[rng.Intn(len(f64Pool))]
+								if math.IsInf(v[k], 0) {
+									v[k] = rng.NormFloat64() * math.Pow(10, float64(rng.Intn(600)-300))
+								}
+							}
+							ok, why = jsonRoundTrip(c, st, v, func(a, b float64) bool { return math.Float64bits(a) == math.Float64bits(b) || (a == 0 && b == 0) })
+						case 3:
+							v := make([]int64, op.N)
+							for k := range v {
+								v[k] = []int64{0, -1, math.MaxInt64, math.MinInt64, 1 << 53, 1<<53 + 1, rng.Int63()}[rng.Intn(7)]
+							}
+							ok, why = jsonRoundTrip(c, st, v, func(a, b int64) bool { return a == b })
+						case 4:
+							v := make([]bool, op.N)
+							for k := range v {
+								v[k] = rng.Intn(2) == 0
+							}
+							ok, why = jsonRoundTrip(c, st, v, func(a, b bool) bool { return a == b })
+						default:
+							v := make([][]string, op.N)
+							for k := range v {
+								v[k] = []string{}
+								for x := rng.Intn(3); x > 0; x-- {
+									v[k] = append(v[k], strPool[rng.Intn(len(strPool))])
+								}
+							}
+							ok, why = jsonRoundTrip(c, st, v, func(a, b []string) bool { return fmt.Sprintf("%q", a) == fmt.Sprintf("%q", b) })
+						}
+						if !ok {
+							add("helper.JSON", "roundtrip-mismatch", "json-scalars", why)
+							return
+						}
+						continue
+					}
 					vals := make([]jsonRow, op.N)
 					for k := range vals {
 						f := f64Pool[rng.Intn(len(f64Pool))]
@@ -521,4 +569,44 @@ func trunc(s string, n int) string {
 		return s[:n] + "..."
 	}
 	return s
+}
+
+// jsonRoundTrip streams vals out with ChanToJSON and back in with JSONToChan (fragmented reads,
+// paced producer) and compares element by element.
+func jsonRoundTrip[T any](c *Case, st *Stats, vals []T, eq func(a, b T) bool) (bool, string) {
+	ch := make(chan T, c.Cap)
+	simrt.GoKind("prod", func() {
+		for _, v := range vals {
+			simrt.Yield(-2, "prod-send")
+			ch <- v
+		}
+		simrt.Yield(-3, "prod-close")
+		close(ch)
+	})
+	w := &FaultWriter{Limit: -1}
+	if err := helper.ChanToJSON(ch, w); err != nil {
+		return false, "ChanToJSON: " + err.Error()
+	}
+	r := &FragReader{Data: w.Buf, Frag: c.Frag, ErrAt: -1}
+	back := helper.JSONToChan[T](r)
+	var got []T
+	for {
+		simrt.Yield(-1, "cons-recv")
+		v, ok := <-back
+		if !ok {
+			break
+		}
+		got = append(got, v)
+	}
+	if len(got) != len(vals) {
+		return false, fmt.Sprintf("%T: %d values written, %d read back (document %q)", vals, len(vals), len(got), trunc(string(w.Buf), 200))
+	}
+	for k := range vals {
+		if !eq(vals[k], got[k]) {
+			return false, fmt.Sprintf("%T value %d: wrote %#v, read %#v", vals, k, vals[k], got[k])
+		}
+	}
+	st.Probes["json-scalar-roundtrips"]++
+	st.Faults["fragmented-reads"] += r.Reads
+	return true, ""
 }
